@@ -40,7 +40,7 @@ CHECKS = {
   'C20': ('exploration', 'model-based property-based testing on a virtual clock (window inequality over grant times + independent reference bucket), plus the scheduled writer harness',
           'sched', 'DESIGN.md section 4 C20',
           'Generated TokenBucket histories (drain, bursts, blocking drain, peek, clock steps 0..1e6, limit changes) and generated writer runs with both buckets active; oracle: every window between two grants/backend calls obeys rate*w + 2*burst per limit epoch, blocking sleeps bounded by deficit/rate of an independent continuously refilled bucket, no refusal while that bucket has tokens.',
-          'Virtual clock replaces carbon.util.time/sleep; reference-bucket judgments are suspended after a limit decrease (see DESIGN.md corrections).'),
+          'Virtual clock replaces carbon.util.time/sleep; reference-bucket judgments are suspended after a limit decrease (see DESIGN.md 8.3).'),
   'C05': ('exploration', 'property-based testing over generated configurations with exhaustive enumeration of the 65536-position key space; validity-predicate oracle',
           'ring', 'DESIGN.md section 4 C05',
           'Generated destination sets x RF x DIVERSE_REPLICAS x router x hash type; every ring position is reached through a real metric name (exhaustively for some configurations, at all ring-entry boundaries for the rest) and the returned list is checked for count, membership, port, repeats, server diversity and determinism. One genuine defect found and fixed.',
@@ -91,6 +91,31 @@ CHECKS = {
           'Expiry is judged away from its documented boundaries only; ambiguous <<field>> bindings are not sent.'),
 }
 
+
+# scope added while testing the checks against mutants and four rounds of independently seeded changes
+# (DESIGN.md section 8.4); appended to the level text
+EXTRA = {
+  'C01': 'Also: python-2 style byte names, truncated/fractional timestamps, every single cut position for short streams.',
+  'C02': 'Also: a quarter of the cases on a bounded cache with and without flow control, the derived limits placed on the settings object exactly as the daemon\'s start-up (CarbonCacheOptions.postOptions) places them; exhaustive single-preemption placement for duplicate-timestamp workloads; values start at the falsy 0.',
+  'C03': 'Also: fractional timestamps inside one second, create-limit pressure histories (few metrics, many stores, dense preemptions).',
+  'C04': 'Also: the before-shutdown trigger runs with Twisted\'s semantics (a raising trigger is logged, the stop goes on); a writer that never stops after the stop sequence raised is a violation, not an inconclusive run.',
+  'C05': 'Also: colliding node hashes as a configuration class; destinations join, leave and rejoin before the look-ups (incl. one of several instances leaving a server that stays).',
+  'C07': 'Also: the instrumentation timer as an event (the relay\'s own periodic metrics go through the same queues; discards == reported + running counter), writes after loseConnection(), datapoints stranded in the no-destination buffer. One further genuine defect (FakeClientFactory re-injection) found and fixed.',
+  'C08': 'Also: replay/back-fill shaped histories (live point + backlog in either order, flush, more points for the oldest interval).',
+  'C09': 'Also: generated fail-over histories, the instrumentation timer, and workloads whose threads start with receivers already paused (a new connection against the writer\'s resume, every single placement).',
+  'C10': 'Also: hard-limit derivation for four carbon.conf layouts (options in [cache], or overridden in the selected instance section); the overflow signal must feed the reported counter: recordMetrics() run twice on the live cache, signals raised == reported + pending.',
+  'C11': 'Also: a quarter of the cases with an admit-all whitelist and match-nothing blacklist loaded from files; thorough tier adds a coverage-guided atheris campaign per listener whose corpus is replayed through the same oracle.',
+  'C12': 'Also: regex pool with groups, back-references and conditionals; list files that disappear; the same names re-sent after the lists changed; tagged and pseudo-tagged names.',
+  'C13': 'Also: the option as resolved by carbon\'s own read_config() for eight program/instance-section layouts in which the operator has it off; thorough tier adds an atheris campaign.',
+  'C14': 'Also: two threads asking for paths concurrently (determinism), generated pairs of near-identical untagged names over the words the encoding treats specially (injectivity beyond the enumerated lengths).',
+  'C15': 'Also: a TCP-like transport that pauses the producer from inside write(); exceptions out of the client\'s send path are violations; 1.2 MB messages against a receiver whose frame limit was raised.',
+  'C16': 'Also: a second generation of the rules files (with realistic past mtimes) reloaded while the routers live.',
+  'C17': 'Also: all timestamps around the lag with a bounded cache, "cache full" announced by another component of the daemon, the derived limits placed as the start-up places them.',
+  'C18': 'Also: explicit name tags, invalid OpenMetrics renderings, names of only "~" through both processors. One idempotence corner (name-tag-only series with an OpenMetrics-shaped value) is a recorded known finding.',
+  'C19': 'Also: reloads racing with the writer pass at every placement; tagged series names (matched as received).',
+  'C20': 'Also: windows spanning a limit change are judged against the more permissive of the two limits, tolerance relative to the window length, late wake-ups of blocking drains, shutdown-shaped histories.',
+}
+
 PENDING_REASON = 'check not built yet in this session (design in DESIGN.md section 4); will be claimed once its check is quiet on the unchanged tree and catches its mutants'
 
 
@@ -108,7 +133,7 @@ def main():
         'evidence_file': 'evidence/%s.json' % pid,
         'replay_cmd_template': './check %s --replay {path}' % pid,
         'engine': engine,
-        'level_claimed': {'category': cat, 'text': text, 'design_ref': ref},
+        'level_claimed': {'category': cat, 'text': text + (' ' + EXTRA[pid] if pid in EXTRA else ''), 'design_ref': ref},
         'level_note': note,
         'technique': tech,
       })
